@@ -600,3 +600,120 @@ class AddChildToDrDuplicate(Base):
 
     def observe(self, c, a, out):
         return {'kind': out.kind, 'exc': out.exc, 'n': len(a.dir.children)}
+
+
+# ---------------------------------------------------------------------------------------------
+# the list of children sorted by Rock Ridge name (what lookups by Rock Ridge path use)
+# ---------------------------------------------------------------------------------------------
+RRC = 'pycdlib.rockridge.RockRidge'
+
+
+def rr_directory(c, n, dirname=b'DIR'):
+    """a Rock Ridge directory in RR-CHILD-INV: '.', '..' and n files whose ISO9660 identifiers are in order; rr_children holds the n
+    files sorted by their (distinct, symbolic 2-byte) Rock Ridge names - an independent order, given by a symbolic permutation-free
+    construction: file i carries the i-th smallest Rock Ridge name and the ISO9660 identifiers are fixed"""
+    a = c.a
+    a.lbs = 2048
+    a.rrnames = [c.bytes('rr_name%d' % i, 2) for i in range(n)]
+    for i in range(n):
+        for x in V.items_of(a.rrnames[i]):
+            c.assume(And(x >= 0x21, x < 0x7f))
+        if i:
+            p, q = V.items_of(a.rrnames[i - 1]), V.items_of(a.rrnames[i])
+            c.assume(Or(p[0] < q[0], And(p[0] == q[0], p[1] < q[1])))
+
+    def rec(ident, isdir, rrname):
+        ents = lambda: c.obj('pycdlib.rockridge.RockRidgeEntries', cl_record=None, px_record=None)       # noqa: E731
+        rr = c.obj(RRC, _initialized=True, _full_name=rrname if rrname is not None else b'', dr_entries=ents(), ce_entries=ents())
+        return c.obj(DR, initialized=True, file_ident=ident, dr_len=40, isdir=isdir, file_flags=(2 if isdir else 0), data_length=2048 if isdir else 5,
+                     rock_ridge=rr, children=[], rr_children=[], extents_to_here=1, offset_to_here=0, index_in_parent=0, data_continuation=None)
+    a.kids = [rec(b'\x00', True, None), rec(b'\x01', True, None)] + [rec(b'F%d.;1' % i, False, a.rrnames[i]) for i in range(n)]
+    off = 0
+    for j, k in enumerate(a.kids):
+        off += 40
+        k.fields['offset_to_here'] = off
+        k.fields['index_in_parent'] = j
+    parent = c.obj(DR, initialized=True, isdir=True)
+    prr = c.obj(RRC, _initialized=True, _full_name=b'dir')
+    return c.obj(DR, initialized=True, isdir=True, parent=parent, rock_ridge=prr, data_length=2048, children=list(a.kids),
+                 rr_children=list(a.kids[2:]), file_ident=dirname, _printable_name=dirname)
+
+
+@contract
+class RRChildAdd(Base):
+    """C13/rr-dup + C18/lookup: adding an entry to a Rock Ridge directory keeps the list sorted by Rock Ridge name sorted and puts the
+    entry into it exactly once; an entry whose Rock Ridge name is already there is refused with InvalidInput and NO change (two
+    entries with one POSIX name could not both be reached) - except in the holding directory RR_MOVED, where relocated directories
+    from anywhere meet"""
+    target = DR + '._add_child'
+    n = 2
+    dirname = 'DIR'
+    covers = ('return', 'raise:PyCdlibInvalidInput')
+
+    def setup(self, c):
+        a = c.a
+        a.dir = rr_directory(c, self.n, self.dirname.encode())
+        a.newname = c.bytes('new_rr_name', 2)
+        for x in V.items_of(a.newname):
+            c.assume(And(x >= 0x21, x < 0x7f))
+        rr = c.obj(RRC, _initialized=True, _full_name=a.newname)
+        a.child = c.obj(DR, initialized=True, file_ident=b'ZZZ.;1', dr_len=40, isdir=False, file_flags=0, data_length=5, rock_ridge=rr, children=[],
+                        rr_children=[], extents_to_here=0, offset_to_here=0, index_in_parent=0, data_continuation=None, parent=a.dir)
+        a.kids0 = list(a.dir.children)
+        a.rr0 = list(a.dir.rr_children)
+        return Call([a.child, a.lbs, False, True], self_obj=a.dir)
+
+    def dup(self, a):
+        return Or(*[Eq(a.newname, nm) for nm in a.rrnames]) if a.rrnames else False
+
+    def raises(self, c, a):
+        return {'PyCdlibInvalidInput': False if self.dirname == 'RR_MOVED' else self.dup(a)}
+
+    def expected_covers(self):
+        return ('return',) if self.dirname == 'RR_MOVED' or self.n == 0 else self.covers
+
+    def post(self, c, a, out):
+        rrc = a.dir.rr_children
+        names = [k.rock_ridge._full_name for k in rrc]
+        srt = []
+        for p, q in zip(names, names[1:]):
+            p, q = V.items_of(p), V.items_of(q)
+            srt.append(Or(p[0] < q[0], And(p[0] == q[0], p[1] <= q[1])))
+        return {'sorted-by-rock-ridge-name': And(*srt) if srt else True,
+                'holds-the-new-entry-once': sum(1 for k in rrc if k is a.child) == 1 and len(rrc) == len(a.rr0) + 1,
+                'keeps-the-others': all(any(k is o for k in rrc) for o in a.rr0),
+                'children-hold-it-too': sum(1 for k in a.dir.children if k is a.child) == 1}
+
+    def post_raise(self, c, a, out):
+        return {'nothing-changed': len(a.dir.rr_children) == len(a.rr0) and all(x is y for x, y in zip(a.dir.rr_children, a.rr0)) and
+                len(a.dir.children) == len(a.kids0) and all(x is y for x, y in zip(a.dir.children, a.kids0))}
+
+    def observe(self, c, a, out):
+        return {'kind': out.kind, 'exc': out.exc}
+
+
+@contract
+class RRChildRemove(Base):
+    """C01/C16 (nothing removed is still found): remove_child takes the entry out of the children AND out of the list sorted by
+    Rock Ridge name, leaving the others in order - a lookup by Rock Ridge path cannot find a removed entry, and its name is free
+    again"""
+    target = DR + '.remove_child'
+    n = 3
+    index = 0          # which of the n files goes
+
+    def setup(self, c):
+        a = c.a
+        a.dir = rr_directory(c, self.n)
+        a.child = a.kids[2 + self.index]
+        a.rr0 = list(a.dir.rr_children)
+        return Call([a.child, 2 + self.index, a.lbs], self_obj=a.dir)
+
+    def post(self, c, a, out):
+        rrc = a.dir.rr_children
+        rest = [k for k in a.rr0 if k is not a.child]
+        return {'gone-from-the-rock-ridge-list': not any(k is a.child for k in rrc),
+                'gone-from-the-children': not any(k is a.child for k in a.dir.children),
+                'the-others-stay-in-order': len(rrc) == len(rest) and all(x is y for x, y in zip(rrc, rest))}
+
+    def observe(self, c, a, out):
+        return {'kind': out.kind, 'exc': out.exc}
